@@ -1,6 +1,6 @@
 //! libc symbols overridden in this binary (the definitions here win over libc's for calls made by
 //! std, by the `libc` crate and by khttp's own `extern "C"` declarations).
-use std::sync::atomic::{AtomicBool, AtomicI64, Ordering};
+use std::sync::atomic::{AtomicBool, AtomicI32, AtomicI64, AtomicUsize, Ordering};
 
 /// when set, `clock_gettime(CLOCK_REALTIME_COARSE)` returns FAKE_SEC
 pub static FAKE_CLOCK: AtomicBool = AtomicBool::new(false);
@@ -20,4 +20,16 @@ pub unsafe extern "C" fn clock_gettime(clk: i32, tp: *mut Ts) -> i32 {
         (*tp).tv_nsec = 0;
     }
     rc
+}
+
+/// fd whose `recv` calls are observed (-1 = none) and the largest length requested on it
+pub static RECV_LOG_FD: AtomicI32 = AtomicI32::new(-1);
+pub static RECV_MAX_LEN: AtomicUsize = AtomicUsize::new(0);
+
+#[no_mangle]
+pub unsafe extern "C" fn recv(fd: i32, buf: *mut libc::c_void, len: usize, flags: i32) -> isize {
+    if fd == RECV_LOG_FD.load(Ordering::Relaxed) {
+        RECV_MAX_LEN.fetch_max(len, Ordering::SeqCst);
+    }
+    libc::syscall(libc::SYS_recvfrom, fd as libc::c_long, buf, len, flags as libc::c_long, 0usize, 0usize) as isize
 }
